@@ -623,9 +623,23 @@ func (s *BaseNodeService) reinitDKG(message storage.Message) error {
 	}
 
 	operations := make([]*types.Operation, 0)
+	opened := false
 	for _, msg := range req.Messages {
 		if fsm.Event(msg.Event) == sif.EventSigningStart {
 			break
+		}
+
+		// Nothing can belong to a round in front of its opening proposal. A
+		// message found there is skipped: a broadcast signature would be stored
+		// although the reinitialisation is refused below for want of a round.
+		if msg.DkgRoundID == req.DKGID && !opened && fsm.Event(msg.Event) != spf.EventInitProposal {
+			var err error
+			if opened, err = s.fsmService.IsExist(req.DKGID); err != nil {
+				return err
+			}
+			if !opened {
+				continue
+			}
 		}
 
 		// The replayed messages are not authenticated (their keys are gone), so
